@@ -1184,7 +1184,10 @@ def c15(tier):
                 ops.append(dict(g.opts(), op="StartFile", name=g.name()))
                 ops.append({"op": "Write", "data": g.payload()})
         ops.append({"op": "Finish"})
-        ws.append({"sc": "enc%05d" % i, "ops": ops})
+        sc = {"sc": "enc%05d" % i, "ops": ops}
+        if i % 3 == 1:      # a sink that accepts short writes: the encrypted body must still arrive completely
+            sc["short_w_max"] = g.r.choice([1, 7, 64, 1000, 4095, 5000])
+        ws.append(sc)
     run_writer_programs(rep, wd, ws, "crate-encrypts", referees=True)
     # (c) reading under schedules with the right / a wrong / no password
     es = []
